@@ -59,7 +59,6 @@ Record config := { c_backups : list spec_cfg; c_metrics : option (list N) }.
 
 Section Load.
 Variable home : option (list N).
-Variable release : bool.
 
 Definition tilde (p : list N) : list N :=
   match p with
@@ -85,22 +84,22 @@ Definition backup (v : yv) : option backup_cfg :=
     | _, _, _ => None end
   | None => None end.
 
-(* #[serde(tag = "name")] without deny_unknown_fields: unknown keys pass, duplicates do not, values are typed (F4) *)
+(* #[serde(tag = "name", deny_unknown_fields)]: known keys only, no duplicates, values typed (buffered by serde);
+   the credentials must be non-empty (schema validation of UploadConfig) *)
 Definition provider (v : yv) : option (list N) :=
-  match v with
-  | YMap m =>
-    if negb (nodup_keys m) then None else
+  match strict [K_name; K_cid; K_csec; K_rtok] v with
+  | Some m =>
     match req str_typed (get K_name m), req str_typed (get K_cid m), req str_typed (get K_csec m), req str_typed (get K_rtok m) with
-    | Some n, Some _, Some _, Some _ =>
-        if key_eqb n V_dropbox || key_eqb n V_gdrive || key_eqb n V_ydisk then Some n else None
+    | Some n, Some a, Some b, Some c =>
+        if (key_eqb n V_dropbox || key_eqb n V_gdrive || key_eqb n V_ydisk) && nonempty a && nonempty b && nonempty c then Some n else None
     | _, _, _, _ => None end
-  | _ => None end.
+  | None => None end.
 
 Definition duration_field (o : option yv) : option (option N) :=
   match o with
   | None => Some None
   | Some v => match str_any v with
-              | Some t => match parse_duration release t with Dur n => Some (Some n) | _ => None end   (* Panic: exit 101 *)
+              | Some t => match parse_duration t with Dur n => Some (Some n) | _ => None end
               | None => None end
   end.
 
